@@ -460,10 +460,10 @@ SEG_KINDS = {"STEP": 0, "FIRST": 1, "END": 2, "DEFS": 5, "NEWMAP": 11, "SWAP": 1
 
 class Sched:
     """Runs one operation per thread on the same function; every executed library line of every thread is a scheduling
-    point: a thread runs only between `step(i)` and its next line event (per-thread semaphores), so a schedule is replayed
-    deterministically.  Segments: [tid, kind, n] = thread tid runs until n more marker statements of that kind have
-    completed in it (FIRST: until its first line event, i.e. just after the call read the entry point; STEP: n lines;
-    END: to completion)."""
+    point: a thread only runs while the controller waits for it, and parks at the first line event at which its current
+    target is reached (per-thread semaphores), so a schedule is replayed deterministically.  Segments: [tid, kind, n] =
+    thread tid runs until n more marker statements of that kind have completed in it (FIRST: until its first line event,
+    i.e. just after the call read the entry point; STEP: n lines; END: to completion)."""
     def __init__(self, im, ops, timeout=20.0):
         self.im = im
         self.ops = ops
@@ -474,9 +474,8 @@ class Sched:
         self.results = [None] * n
         self.tracers = [Tracer() for _ in range(n)]
         self.timeout = timeout
-        self.lines = [0] * n
+        self.target = [None] * n
         self.threads = []
-        self.dead = False
         for i in range(n):
             self.tracers[i].on_line = self._make_yield(i)
             t = threading.Thread(target=self._body, args=(i,), daemon=True)
@@ -485,6 +484,9 @@ class Sched:
 
     def _make_yield(self, i):
         def y(tr):
+            tg = self.target[i]
+            if tg is not None and not tg(tr):
+                return
             self.ctrl.release()
             if not self.sems[i].acquire(timeout=self.timeout):
                 raise SystemExit
@@ -502,35 +504,33 @@ class Sched:
             self.done[i] = True
             self.ctrl.release()
 
-    def step(self, i):
-        """let thread i execute up to its next library line (or to its end)"""
+    def _go(self, i, target):
         if self.done[i]:
-            return False
+            return
+        self.target[i] = target
         self.sems[i].release()
         if not self.ctrl.acquire(timeout=self.timeout):
-            self.dead = True
             raise RuntimeError("scheduler: thread did not come back")
-        self.lines[i] += 1
-        return True
 
     def segment(self, tid, kind, n):
         tr = self.tracers[tid]
+        if self.done[tid] or n <= 0:
+            return
         if kind == "FIRST":
-            while not self.done[tid] and tr.n < 1:
-                self.step(tid)
-            return
-        if kind == "END":
-            while not self.done[tid]:
-                self.step(tid)
-            return
-        if kind == "STEP":
-            for _ in range(n):
-                if not self.step(tid):
-                    break
-            return
-        target = tr.done.count(kind) + n
-        while not self.done[tid] and tr.done.count(kind) < target:
-            self.step(tid)
+            if tr.n < 1:
+                self._go(tid, lambda t: True)
+        elif kind == "END":
+            self._go(tid, lambda t: False)
+        elif kind == "STEP":
+            # the thread is parked AT event number tr.n - 1 (or has not started); n more lines execute
+            goal = tr.n + n
+            self._go(tid, lambda t: t.n >= goal)
+        else:
+            goal = tr.done.count(kind) + n
+            if tr.n < 1:
+                self._go(tid, lambda t: True)
+            if tr.done.count(kind) < goal:
+                self._go(tid, lambda t: t.done.count(kind) >= goal)
 
     def run(self, segments):
         for tid, kind, n in segments:
@@ -559,4 +559,4 @@ def impl_segments(scn, setup, tops, segments, afterops):
     sc = Sched(im, [tuple(o) for o in tops])
     res = sc.run([tuple(s) for s in segments])
     after = [im.do(tuple(o)) for o in afterops]
-    return {"threads": res, "after": after, "lines": list(sc.lines)}
+    return {"threads": res, "after": after, "lines": [t.n for t in sc.tracers]}
